@@ -99,7 +99,7 @@ class Ctx:
             st['impl_' + ic] += 1
             self.classes[ic] += 1
             if model:
-                v = vlib.agree(rec['out'], rec['model'], obs)
+                v = vlib.agree(rec['out'], rec['model'], obs, rec)
                 rec['agree'] = v
                 st['agree_' + v] += 1
                 if v == 'oom':
@@ -457,10 +457,18 @@ def prop_C04(ctx):
 
 
 # ---------------------------------------------------------------------------------------------- C20
+def obs_C20(s, rec=None):
+    """identifiers and `::`-rooted paths of the output that come neither from the input nor from the allow-list"""
+    if vlib.outcome_class(s) != 'ok':
+        return (vlib.outcome_class(s),)
+    return ('ok', tuple(sorted(oracles.foreign_idents(s, rec['text']))),
+            tuple(sorted(set(p[:2] for p in oracles.rooted_paths(vlib.ok_tokens(s))))))
+
+
 def prop_C20(ctx):
     ctx.build()
-    recs = generic_sets(ctx, ['corpus', 'struct_grid', 'enum_grid', 'vfield_grid', 'trait_grid', 'comp'], vlib.obs_idents)
-    recs += ctx.run_set('flatten', gen.c03_cases(ctx.rng, 600 if ctx.tier == 'quick' else 5000), vlib.obs_idents)
+    recs = generic_sets(ctx, ['corpus', 'struct_grid', 'enum_grid', 'vfield_grid', 'trait_grid', 'comp'], obs_C20)
+    recs += ctx.run_set('flatten', gen.c03_cases(ctx.rng, 600 if ctx.tier == 'quick' else 5000), obs_C20)
     n = 0
     for r in recs:
         if vlib.outcome_class(r['out']) != 'ok':
@@ -477,35 +485,46 @@ def prop_C20(ctx):
 
 
 # ---------------------------------------------------------------------------------------------- metamorphic helpers
+def relate(a, b, compare):
+    """None when outcome b stands in the property's relation to outcome a, else a short reason"""
+    ca, cb = vlib.outcome_class(a), vlib.outcome_class(b)
+    if ca != cb:
+        return 'verdict changed (%s -> %s)' % (ca, cb)
+    if ca == 'ok':
+        if compare == 'multiset':
+            ia = sorted(vlib.toks_text(i) for i in vlib.split_impls(vlib.ok_tokens(a)))
+            ib = sorted(vlib.toks_text(i) for i in vlib.split_impls(vlib.ok_tokens(b)))
+            if ia != ib:
+                return 'generated impls differ'
+        elif compare != 'verdict-only' and vlib.nospacing(a) != vlib.nospacing(b):
+            return 'generated code differs'
+    elif ca == 'err' and compare == 'msgs':
+        ma, mb = vlib.err_msgs(a), vlib.err_msgs(b)
+        if sorted(x or '#lib' for x in ma) != sorted(x or '#lib' for x in mb):
+            return 'diagnostics differ'
+    return None
+
+
 def metamorphic(ctx, name, pairs, why, oracle, key, compare='tokens'):
     """pairs: list of (orig record, transformed Item).  Expands the transformed inputs with the implementation
-    (and the model) and compares each with its original: same verdict, token-identical impls (as a multiset
-    when compare == 'multiset')."""
+    (and the model) and compares each with its original under the property's relation.  The observation used
+    for the model/implementation tie is the relation itself: the model (by the theorem) predicts that it holds."""
     if not pairs:
         return 0
-    trecs = ctx.run_set(name, [p[1] for p in pairs], vlib.obs_full)
+    trecs = ctx.run_set(name, [p[1] for p in pairs], vlib.obs_none)
     n = 0
     for tr, (orig, _) in zip(trecs, pairs):
         n += 1
-        a, b = orig['out'], tr['out']
-        ca, cb = vlib.outcome_class(a), vlib.outcome_class(b)
-        bad = None
-        if ca != cb:
-            bad = '%s: verdict changed (%s -> %s)' % (why, ca, cb)
-        elif ca == 'ok':
-            if compare == 'multiset':
-                ia = sorted(vlib.toks_text(i) for i in vlib.split_impls(vlib.ok_tokens(a)))
-                ib = sorted(vlib.toks_text(i) for i in vlib.split_impls(vlib.ok_tokens(b)))
-                if ia != ib:
-                    bad = '%s: generated impls differ' % why
-            elif vlib.nospacing(a) != vlib.nospacing(b):
-                bad = '%s: generated code differs' % why
-        elif ca == 'err' and compare != 'verdict-only':
-            ma, mb = vlib.err_msgs(a), vlib.err_msgs(b)
-            if compare == 'msgs' and sorted(ma) != sorted(mb):
-                bad = '%s: diagnostics differ' % why
+        bad = relate(orig['out'], tr['out'], compare)
         if bad:
-            ctx.report(tr, bad, oracle, key=key, extra={'original_input': orig['text'], 'original_outcome': (a or '')[:3000]})
+            ctx.report(tr, '%s: %s' % (why, bad), oracle, key=key, extra={'original_input': orig['text'], 'original_outcome': (orig['out'] or '')[:3000]})
+        elif orig.get('model') and tr.get('model') and vlib.outcome_class(orig['model']) not in ('oom', 'driver-error') \
+                and vlib.outcome_class(tr['model']) not in ('oom', 'driver-error'):
+            mbad = relate(orig['model'], tr['model'], 'verdict-only' if compare == 'msgs' and vlib.outcome_class(orig['model']) == 'err' else compare)
+            if mbad:
+                tr2 = dict(tr)
+                tr2['agree'] = 'diff'
+                ctx.disagreements.append(tr2)
     return n
 
 
@@ -518,7 +537,7 @@ def prop_C12(ctx):
         + sample(ctx.rng, gen.grid_variant_fields(names=gen.TRAIT_NAMES), 800 if q else 6000) \
         + gen.grid_trait_instrs() + gen.composites(ctx.rng, ctx.sz['comp']) + gen.shortcut_items(ctx.rng, 800 if q else 6000)
     base = [it for it in base if gen.has_shortcut(it) and not gen.uses_repeat(it)]
-    recs = ctx.run_set('shortcuts', base, vlib.obs_full)
+    recs = ctx.run_set('shortcuts', base, vlib.obs_none)
     pairs = [(r, gen.expand_shortcuts(r['item'])) for r in recs if r.get('item') is not None]
     n = metamorphic(ctx, 'written_out', pairs, 'writing the shortcut out as the basic instructions it abbreviates', 'shortcut vs basics, both expanded by the implementation',
                     'shortcut', compare='multiset')
@@ -534,7 +553,7 @@ def prop_C13(ctx):
     base = sample(ctx.rng, gen.grid_struct_lines(), 1000 if q else 8000) + sample(ctx.rng, gen.grid_enum_lines(full=False), 1000 if q else 8000) \
         + sample(ctx.rng, gen.grid_variant_fields(), 600 if q else 5000) + sample(ctx.rng, gen.grid_trait_instrs(), 400 if q else 1440) \
         + gen.composites(ctx.rng, ctx.sz['comp']) + gen.c03_cases(ctx.rng, 300 if q else 3000)
-    recs = ctx.run_set('bare', base, vlib.obs_full)
+    recs = ctx.run_set('bare', base, vlib.obs_none)
     total = 0
     for mode in ('each', 'group', 'mix'):
         pairs = []
@@ -562,30 +581,42 @@ def bare_forms():
 
 
 # ---------------------------------------------------------------------------------------------- C10
+def c10_sites(out, it):
+    """per impl of the outcome: is the expected substituted token sequence present, contiguously? (None: no expression there)"""
+    exp = it.meta.get('expect') if it is not None else None
+    res = []
+    if not exp or vlib.outcome_class(out) != 'ok':
+        return res
+    for imp in vlib.split_impls(vlib.ok_tokens(out)):
+        hdr = vlib.header_of(imp)
+        from_side = ' From <' in hdr or ' TryFrom <' in hdr
+        want = exp['from'] if from_side else exp['into']
+        res.append((hdr, want, None if want is None else contains_seq(vlib.flatten(imp), want)))
+    return res
+
+
+def obs_C10(s, rec=None):
+    c = vlib.outcome_class(s)
+    if c != 'ok':
+        return vlib.obs_msgs(s)
+    return ('ok', tuple((h, ok) for h, _, ok in c10_sites(s, rec.get('item'))))
+
+
 def prop_C10(ctx):
     ctx.build()
     q = ctx.tier == 'quick'
     items = gen.c10_cases(ctx.rng, 3000 if q else 30000)
-    recs = ctx.run_set('expressions', items, vlib.obs_full)
-    recs2 = generic_sets(ctx, ['corpus', 'comp'], vlib.obs_full)
+    recs = ctx.run_set('expressions', items, obs_C10)
     n = 0
     for r in recs:
         it = r['item']
         if vlib.outcome_class(r['out']) != 'ok':
             continue
-        exp = it.meta.get('expect')      # list of (header kind predicate, flattened expected token texts)
-        if not exp:
-            continue
-        impls = vlib.split_impls(vlib.ok_tokens(r['out']))
-        for imp in impls:
-            hdr = vlib.header_of(imp)
-            from_side = ' From <' in hdr or ' TryFrom <' in hdr
-            want = exp['from'] if from_side else exp['into']
+        for hdr, want, ok in c10_sites(r['out'], it):
             if want is None:
                 continue
             n += 1
-            flat = vlib.flatten(imp)
-            if not contains_seq(flat, want):
+            if not ok:
                 ctx.report(r, 'the substituted expression does not reach the generated code unchanged and in order: expected the contiguous tokens %r in the impl `%s`'
                            % (' '.join(want), hdr[:120]), 'flattened token search', key='subst',
                            extra={'expected_tokens': want})
@@ -604,7 +635,106 @@ def contains_seq(hay, needle):
     return False
 
 
+# ---------------------------------------------------------------------------------------------- C05
+def impls_by_header(out):
+    d = {}
+    for imp in vlib.split_impls(vlib.ok_tokens(out)):
+        d[vlib.header_of(imp)] = vlib.toks_text(imp)
+    return d
+
+
+def prop_C05(ctx):
+    ctx.build()
+    q = ctx.tier == 'quick'
+    forms = gen.c05_forms()
+    combos = [()] + [(f,) for f in forms]
+    pairs = [(f, g) for f in forms for g in forms]
+    if q:
+        pairs = sample(ctx.rng, pairs, 1500)
+    triples = [tuple(ctx.rng.choice(forms) for _ in range(ctx.rng.choice([3, 3, 4]))) for _ in range(300 if q else 6000)]
+    for shape, mk in (('named', lambda fs: gen.c05_item(fs, 'named')), ('tuple', lambda fs: gen.c05_item(fs, 'tuple')), ('variant', gen.c05_variant_item)):
+        sel = combos + (pairs if shape == 'named' or not q else sample(ctx.rng, pairs, 400)) + (triples if shape == 'named' else triples[:len(triples) // 4])
+        items = [mk(list(fs)) for fs in sel]
+        recs = ctx.run_set('chain_' + shape, items, vlib.obs_full)
+        base = {}
+        for r in recs:
+            if len(r['item'].meta['forms']) <= 1 and vlib.outcome_class(r['out']) == 'ok':
+                base[tuple(r['item'].meta['forms'])] = impls_by_header(r['out'])
+        nctx = 0
+        for r in recs:
+            fs = r['item'].meta['forms']
+            if len(fs) < 2 or vlib.outcome_class(r['out']) != 'ok':
+                continue
+            attrs = [gen.c05_attr(f, i + 1) for i, f in enumerate(fs)]
+            got = impls_by_header(r['out'])
+            for hdr, text in got.items():
+                kfc = oracles.header_context(hdr)
+                if kfc is None:
+                    continue
+                kind, fallible, cp = kfc
+                w = oracles.winner(attrs, kind, fallible, cp)
+                ref_forms = (fs[w],) if w is not None else ()
+                ref = base.get(tuple(ref_forms), {}).get(hdr)
+                if ref is None:
+                    continue
+                nctx += 1
+                # the winner's marker number differs between the single-instruction item (always 1) and this one: normalise
+                want = ref.replace('e1', 'e%d' % (w + 1)).replace('g1', 'g%d' % (w + 1)) if w is not None else ref
+                if text != want:
+                    ctx.report(r, 'conversion (%s, fallible=%s, %s): the instruction that should take effect is %s, but the impl is not the one generated '
+                               'when only that instruction is present' % (kind, fallible, cp, ('#%d %s' % (w + 1, attrs[w].render())) if w is not None else 'none'),
+                               'most-specific-instruction rule vs implementation, impl by impl', key='chain',
+                               extra={'impl_got': text[:1500], 'impl_expected': want[:1500]})
+        ctx.cov['contexts_checked_' + shape] = nctx
+    return ctx.finish()
+
+
+# ---------------------------------------------------------------------------------------------- C06
+def prop_C06(ctx):
+    ctx.build()
+    q = ctx.tier == 'quick'
+    base = gen.composites(ctx.rng, ctx.sz['comp'] * 2) + gen.c06_cases(ctx.rng, 2500 if q else 25000)
+    base = [it for it in base if len(set(oracles.norm_ty(a.cp) for a in it.attrs if isinstance(a, gen.Attr) and a.name in gen.TRAIT_NAMES and hasattr(a, 'cp'))) >= 2
+            and not any(isinstance(a, gen.Group) for lst in gen.all_attr_lists(it) for a in lst) and not gen.uses_repeat(it)]
+    recs = ctx.run_set('joint', base, vlib.obs_none)
+    pitems, porig = [], []
+    for r in recs:
+        if vlib.outcome_class(r['out']) != 'ok':
+            continue
+        it = r['item']
+        for cp in sorted(set(oracles.norm_ty(a.cp) for a in it.attrs if a.name in gen.TRAIT_NAMES and hasattr(a, 'cp'))):
+            p = oracles.project(it, cp)
+            p.meta = dict(it.meta, projected_to=cp)
+            pitems.append(p)
+            porig.append((r, cp))
+    precs = ctx.run_set('projected', pitems, vlib.obs_none)
+    n = 0
+    for pr, (orig, cp) in zip(precs, porig):
+        n += 1
+        want = [t for h, t in oracles.impls_for(orig['out'], cp) if oracles.header_counterpart(h) == cp]
+        if vlib.outcome_class(pr['out']) != 'ok':
+            # the projection may legitimately be rejected/panic only if ... never: it is a sub-configuration of an accepted input,
+            # but rejection of the projection is a statement about validation, not about leaking; it is reported separately
+            ctx.cov['projection_not_accepted'] = ctx.cov.get('projection_not_accepted', 0) + 1
+            continue
+        got = [t for h, t in oracles.impls_for(pr['out'], cp)]
+        if got != want:
+            ctx.report(pr, 'the impls for counterpart %s differ between the joint input and the input with every instruction concerning the other '
+                       'counterparts removed' % cp, 'joint vs projected input, both expanded by the implementation', key='leak',
+                       extra={'joint_input': orig['text'], 'impls_joint': want[:4], 'impls_projected': got[:4]})
+        elif orig.get('model') and pr.get('model') and vlib.outcome_class(orig['model']) == 'ok' and vlib.outcome_class(pr['model']) == 'ok':
+            mw = [t for h, t in oracles.impls_for(orig['model'], cp) if oracles.header_counterpart(h) == cp]
+            mg = [t for h, t in oracles.impls_for(pr['model'], cp)]
+            if mw != mg:
+                d = dict(pr)
+                ctx.disagreements.append(d)
+    ctx.cov['projections_compared'] = n
+    return ctx.finish()
+
+
 PROPS = {
+    'C06': prop_C06,
+    'C05': prop_C05,
     'C04': prop_C04,
     'C10': prop_C10,
     'C12': prop_C12,
